@@ -3,6 +3,7 @@
  * REAL functions of /repo/src/core/url.c under ASan/UBSan and evaluates the
  * same oracles as the contracts in plain C:
  *   url_utf8_validate          RFC 3629 byte-range table (U8_GOOD_AT, spec.h)
+ *   url_hex_val                value of a hexadecimal digit (RFC 3986 2.1)
  *   nni_url_parse_inline_inner accepted => scheme text equals a table entry
  *   nni_url_clone_inline,
  *   nng_url_clone              equal + independent clone, ENOMEM only when
@@ -100,23 +101,68 @@ replay_utf8(void)
 		}
 	}
 	str[len] = 0;
-	/* every suffix is a string the validator may be handed */
+	/* every substring of the window is a string the validator may be handed.
+	 * A function-level counterexample is a suffix of the string (run to its
+	 * terminator); a loop-step counterexample is an arbitrary scan position
+	 * in the middle of an object that may hold NUL bytes before, and further
+	 * bytes after, the sequence that is mis-judged -- so the candidates also
+	 * start behind embedded NULs and end at every later position. */
 	for (size_t j = 0; j < len; j++) {
-		if (str[j] == 0)
-			break;
-		uint8_t *copy = malloc(strlen((char *) str + j) + 1); /* exact size: ASan sees over-reads */
-		strcpy((char *) copy, (char *) str + j);
-		nng_err rv  = url_utf8_validate(copy);
-		bool    exp = u8_oracle(copy);
-		tried++;
-		if ((rv == NNG_OK) != exp) {
-			show(exp ? "well-formed UTF-8 REJECTED:" : "malformed UTF-8 ACCEPTED:", copy);
-			printf("  url_utf8_validate -> %d, RFC 3629 table says %s\n", rv, exp ? "well-formed" : "malformed");
-			VP_EXPECT((rv == NNG_OK) == exp);
+		for (size_t e = len; e > j; e--) {
+			size_t l = 0;
+			while (j + l < e && str[j + l] != 0)
+				l++;
+			if (l == 0 || (e < len && j + l < e))
+				continue; /* empty, or the same string as a longer cut */
+			uint8_t *copy = malloc(l + 1); /* exact size: ASan sees over-reads */
+			memcpy(copy, str + j, l);
+			copy[l]     = 0;
+			nng_err rv  = url_utf8_validate(copy);
+			bool    exp = u8_oracle(copy);
+			tried++;
+			if ((rv == NNG_OK) != exp) {
+				show(exp ? "well-formed UTF-8 REJECTED:" : "malformed UTF-8 ACCEPTED:", copy);
+				printf("  url_utf8_validate -> %d, RFC 3629 table says %s\n", rv, exp ? "well-formed" : "malformed");
+				VP_EXPECT((rv == NNG_OK) == exp);
+			}
+			free(copy);
 		}
-		free(copy);
 	}
 	printf("utf8: %d candidate strings from the counterexample window\n", tried);
+	VP_DONE();
+}
+
+static int
+replay_hex(void)
+{
+	/* the counterexample character first, then every other character: the
+	 * function has a single 8-bit argument, so the native run is exhaustive */
+	int c0 = (int) (vp_u64("vp_arg_c", 'f') & 0xff), bad = 0;
+	for (int i = 0; i < 257; i++) {
+		int     ci = (i == 0) ? c0 : i - 1;
+		char    c  = (char) ci;
+		uint8_t rv = url_hex_val(c);
+		bool    ok = rv <= 15;
+		if (c >= '0' && c <= '9')
+			ok = ok && rv == c - '0';
+		if (c >= 'A' && c <= 'F')
+			ok = ok && rv == 10 + (c - 'A');
+		if (c >= 'a' && c <= 'f')
+			ok = ok && rv == 10 + (c - 'a');
+		if (i == 0)
+			printf("url_hex_val(0x%02x '%c') -> %u   [counterexample argument]\n", ci, (ci >= 0x20 && ci < 0x7f) ? ci : '.', rv);
+		else if (!ok && ci != c0)
+			printf("url_hex_val(0x%02x '%c') -> %u   [also wrong]\n", ci, (ci >= 0x20 && ci < 0x7f) ? ci : '.', rv);
+		if (!ok && (i == 0 || ci != c0)) {
+			bad++;
+			/* same clauses as the contract */
+			VP_EXPECT(rv <= 15);
+			VP_EXPECT(!(c >= '0' && c <= '9') || rv == c - '0');
+			VP_EXPECT(!(c >= 'A' && c <= 'F') || rv == 10 + (c - 'A'));
+			VP_EXPECT(!(c >= 'a' && c <= 'f') || rv == 10 + (c - 'a'));
+		}
+	}
+	printf("hex_val: %d of 256 characters decode wrongly\n", bad);
 	VP_DONE();
 }
 
@@ -261,6 +307,8 @@ main(int argc, char **argv)
 	const char *fn = argc > 2 ? argv[2] : "url_utf8_validate";
 	if (strcmp(fn, "url_utf8_validate") == 0)
 		return replay_utf8();
+	if (strcmp(fn, "url_hex_val") == 0)
+		return replay_hex();
 	if (strcmp(fn, "nni_url_parse_inline_inner") == 0)
 		return replay_parse();
 	if (strcmp(fn, "nni_url_clone_inline") == 0)
